@@ -28,6 +28,8 @@ CONSTANTS Configured,   \* the configured temperature (thousandths)
           NC,           \* number of conversation processes
           Universe,     \* set of functions 1..NC -> conversation
           Sequential,   \* TRUE: requests are served one at a time (turn-level interleavings only)
+          Verify,       \* FALSE: the code as it is; TRUE: a cache entry is used only for the exact
+                        \* message prefix it was stored for (repaired design, see SharedOps!Usable)
           Rec           \* "none" | "serve" | "steps": what the history variable trail records
 
 (* --algorithm SharedInstance {
@@ -52,7 +54,7 @@ CONSTANTS Configured,   \* the configured temperature (thousandths)
     Turn: while (t <= NTurns(self)) {
       Serve: await (~Sequential \/ busy = 0);
              busy := IF Sequential THEN self ELSE busy;
-             used := Continue(cache, Own(self, t));
+             used := Continue(cache, Own(self, t), Verify);
              served := served \cup {[c |-> self, t |-> t, used |-> used, own |-> Own(self, t)]};
              trail := IF Rec = "serve" THEN Append(trail, self) ELSE trail;
              i := 1;
@@ -71,7 +73,8 @@ CONSTANTS Configured,   \* the configured temperature (thousandths)
                trail := IF Rec = "steps" THEN Append(trail, <<self, "X">>) ELSE trail;
                i := i + 1;
       };
-      Store: cache := (StoreKey(self, t) :> (used \o <<ReplyMsg(self, t)>>)) @@ cache;
+      Store: cache := (StoreKey(self, t) :> [src |-> Own(self, t) \o <<ReplyMsg(self, t)>>,
+                                             ev  |-> used \o <<ReplyMsg(self, t)>>]) @@ cache;
              busy := IF Sequential THEN 0 ELSE busy;
              t := t + 1;
     }
@@ -120,7 +123,7 @@ Turn(self) == /\ pc[self] = "Turn"
 Serve(self) == /\ pc[self] = "Serve"
                /\ (~Sequential \/ busy = 0)
                /\ busy' = IF Sequential THEN self ELSE busy
-               /\ used' = [used EXCEPT ![self] = Continue(cache, Own(self, t[self]))]
+               /\ used' = [used EXCEPT ![self] = Continue(cache, Own(self, t[self]), Verify)]
                /\ served' = (served \cup {[c |-> self, t |-> t[self], used |-> used'[self], own |-> Own(self, t[self])]})
                /\ trail' = (IF Rec = "serve" THEN Append(trail, self) ELSE trail)
                /\ i' = [i EXCEPT ![self] = 1]
@@ -164,7 +167,8 @@ Exit(self) == /\ pc[self] = "Exit"
                               used >>
 
 Store(self) == /\ pc[self] = "Store"
-               /\ cache' = (StoreKey(self, t[self]) :> (used[self] \o <<ReplyMsg(self, t[self])>>)) @@ cache
+               /\ cache' = (StoreKey(self, t[self]) :> [src |-> Own(self, t[self]) \o <<ReplyMsg(self, t[self])>>,
+                                                        ev  |-> used[self] \o <<ReplyMsg(self, t[self])>>]) @@ cache
                /\ busy' = IF Sequential THEN 0 ELSE busy
                /\ t' = [t EXCEPT ![self] = t[self] + 1]
                /\ pc' = [pc EXCEPT ![self] = "Turn"]
